@@ -13,13 +13,42 @@ use crate::types::instruction::{
     Instruction, InstructionMetaInfo, InstructionType, PreProcessInstruction, ScriptInstruction,
 };
 use fsio::file::read_text_file;
+use std::cell::RefCell;
+use std::path::PathBuf;
 
 static COMMENT_PREFIX_STR: &str = "#";
 static PRE_PROCESS_PREFIX: char = '!';
 static LABEL_PREFIX: char = ':';
 
+thread_local! {
+    // the files which are being parsed right now (a file and everything it includes)
+    static FILES_IN_PROGRESS: RefCell<Vec<PathBuf>> = RefCell::new(vec![]);
+}
+
+struct FileInProgress;
+
+impl Drop for FileInProgress {
+    fn drop(&mut self) {
+        FILES_IN_PROGRESS.with(|files| {
+            files.borrow_mut().pop();
+        });
+    }
+}
+
 /// parses the file and returns a vector of instructions
 pub fn parse_file(file: &str) -> Result<Vec<Instruction>, ScriptError> {
+    // a file which includes itself (directly or via other files) would never finish parsing
+    let file_path = std::fs::canonicalize(file).unwrap_or_else(|_| PathBuf::from(file));
+    let already_in_progress = FILES_IN_PROGRESS.with(|files| files.borrow().contains(&file_path));
+    if already_in_progress {
+        return Err(ScriptError::Runtime(
+            format!("Include cycle detected, file: {} includes itself.", file),
+            None,
+        ));
+    }
+    FILES_IN_PROGRESS.with(|files| files.borrow_mut().push(file_path));
+    let _file_in_progress = FileInProgress;
+
     let text = read_text_file(file)
         .map_err(|error| ScriptError::ErrorReadingFile(file.to_string(), Some(error)))?;
     parse_text_with_source_file(&text, file)
